@@ -109,7 +109,7 @@ macro_rules! c20_faststr_pair {
             unwind: $unwind,
             stubs: [alloc::fmt::format => crate::common::stubs::fmt_format],
             targets: "FastStr::{new, len, ==, cmp, partial_cmp, compare, starts_with, ends_with, find, find_byte, find_byte_optimized, common_prefix_len}",
-            bounds: "two fully symbolic byte strings (all 256 byte values) of the concrete lengths LA, LB given by the instance (0..3)",
+            bounds: "two fully symbolic byte strings (all 256 byte values) of the concrete lengths LA, LB given by the instance (0..6)",
             oracle: "each operation equals its definition-level loop over the byte arrays: unsigned lexicographic order, prefix / suffix / first occurrence, common prefix length",
             body: { faststr_pair::<$la, $lb>() }
         }
@@ -122,6 +122,9 @@ c20_faststr_pair!(c20_faststr_pair_3x2, quick, 6, 3, 2);
 c20_faststr_pair!(c20_faststr_pair_1x3, thorough, 6, 1, 3);
 c20_faststr_pair!(c20_faststr_pair_3x3, thorough, 6, 3, 3);
 c20_faststr_pair!(c20_faststr_pair_3x0, thorough, 6, 3, 0);
+c20_faststr_pair!(c20_faststr_pair_4x3, quick, 8, 4, 3);
+c20_faststr_pair!(c20_faststr_pair_5x3, quick, 8, 5, 3);
+c20_faststr_pair!(c20_faststr_pair_6x4, thorough, 9, 6, 4);
 
 fn faststr_hash<const L: usize>() {
     use std::hash::{Hash, Hasher};
